@@ -18,7 +18,7 @@ MANIFEST = {
           'import events, canary flags, and a type walker over whatever loads() returns.',
   'note': 'The allow-list is pinned in the harness as it stands in the anchor ({copy_reg._reconstructor, '
           '__builtin__.object}); widening it in carbon is reported. Random names of the quantifier are replaced by the '
-          'exhaustive sweep plus a few not-yet-imported module names.',
+          'exhaustive sweep plus a few not-yet-imported module names. Every line of the connectionMade() methods is a crash point: an exception is injected there and hostile frames are then sent on the connection Twisted keeps open.',
 }
 
 ALLOW = {('copy_reg', '_reconstructor'), ('__builtin__', 'object')}
